@@ -90,6 +90,21 @@ Fixpoint safe_stmt (s : stmt) : bool :=
 
 Definition safe_fun (f : fundecl) : bool := forallb safe_stmt (fd_body f).
 
+(* return statements carry a value exactly when the function has a result *)
+Fixpoint rets_ok (void : bool) (s : stmt) : bool :=
+  let fix all (l : list stmt) : bool := match l with [] => true | x :: l' => rets_ok void x && all l' end in
+  let opt (o : option stmt) : bool := match o with None => true | Some x => rets_ok void x end in
+  match s with
+  | SReturn res => if void then match res with [] => true | _ => false end else match res with [] => false | _ => true end
+  | SIf init _ t e => opt init && all t && opt e
+  | SFor init _ post body => opt init && opt post && all body
+  | SBlock l => all l
+  | _ => true
+  end.
+Definition rets_ok_fun (f : fundecl) : bool :=
+  forallb (fun t => negb (ty_eqb t TVoid)) (fd_results f) &&
+  forallb (rets_ok (match fd_results f with [] => true | _ => false end)) (fd_body f).
+
 (* ---- user functions called by a function ---- *)
 Fixpoint calls_of_expr (e : expr) : list Z :=
   let fix all (l : list expr) : list Z := match l with [] => [] | x :: l' => calls_of_expr x ++ all l' end in
